@@ -13,7 +13,7 @@ from hypothesis import strategies as st
 
 from vlib import arrays as A
 from vlib import linops as LO
-from vlib.runner import Part, R
+from vlib.runner import Part, R, make_sweep
 
 PROPERTY = "C04"
 RULE = ("Hypothesis-generated operator trees (all leaf classes; block operators with overlapping/gapped/non-tiling strides "
@@ -390,7 +390,36 @@ def check_big(case):
     return r
 
 
+def block_configs():
+    """block operators enumerated completely: 1-D N <= 12 x B <= N x S <= B + 2 and 2-D N in {2,3,4}^2 x B <= N x S <= B + 1,
+    both as ArrayToBlocks and BlocksToArray (overlap, gap, exact tiling, non-dividing strides, and every coincidence of
+    element counts between input and output)"""
+    out = []
+    for N in range(1, 13):
+        for B in range(1, N + 1):
+            for S in range(1, B + 3):
+                for op in ("ArrayToBlocks", "BlocksToArray"):
+                    out.append({"tree": {"op": op, "shape": [N], "blk_shape": [B], "blk_strides": [S]}, "dtype": "complex128",
+                                "order": "H-first" if (N + B + S) % 2 else "N-first"})
+    for N1 in (2, 3, 4):
+        for N2 in (2, 3, 4):
+            for B1 in range(1, N1 + 1):
+                for B2 in range(1, N2 + 1):
+                    for S1 in range(1, B1 + 2):
+                        for S2 in range(1, B2 + 2):
+                            for op in ("ArrayToBlocks", "BlocksToArray"):
+                                out.append({"tree": {"op": op, "shape": [N1, N2], "blk_shape": [B1, B2], "blk_strides": [S1, S2]},
+                                            "dtype": "complex128", "order": "N-first"})
+    return out
+
+
+def extra_coverage(tier):
+    return {"exhaustive_subdomains": ["ArrayToBlocks / BlocksToArray normal operators: every 1-D (N <= 12, B <= N, S <= B+2) and 2-D "
+                                      "(N in {2,3,4}^2, B <= N, S <= B+1) configuration (%d operators, part 'blocks')" % len(block_configs())]}
+
+
 PARTS = [
+    make_sweep("blocks", block_configs, check_tree),
     Part("tree", check_tree, {"quick": 2400, "thorough": 40000}, strategy=st_normal_tree),
     Part("mri", check_tree, {"quick": 300, "thorough": 6000}, strategy=st_normal_mri),
     Part("toeplitz", check_toeplitz, {"quick": 500, "thorough": 10000}, strategy=st_toeplitz),
